@@ -74,3 +74,15 @@ void SealAudit::on_wire_dtls_record(const void *ssl, unsigned epoch, uint64_t se
     fail("seq_not_increasing", "dtls,record_number_reused", "two different protected DTLS records left one endpoint under the same epoch/sequence number " + std::to_string(epoch) + "/" + std::to_string(seq) +
          " (the number is bound into the MAC / AEAD nonce)");
 }
+
+void SealAudit::on_wire_gcm12_record(const void *ssl, const unsigned char *body, size_t n) {
+    if (n < 8 + 16) { return; }
+    std::string ex((const char *) body, 8);
+    counters["seal.gcm12_wire_records"]++;
+    auto it = wire_gcm_last.find((uintptr_t) ssl);
+    if (it != wire_gcm_last.end() && !(it->second < ex)) {
+        fail("seq_not_increasing", "tls1.2,gcm,wire", "two consecutive TLS 1.2 AES-GCM records of one sender carry explicit nonces " + hex((const unsigned char *) it->second.data(), 8) + " then " + hex(body, 8) +
+             " (the explicit nonce is the record sequence number: it must strictly increase under one key)");
+    }
+    wire_gcm_last[(uintptr_t) ssl] = ex;
+}
